@@ -20,6 +20,22 @@ class Report:
         self.exhaustive = False
         self.guards = []         # vacuity guards that fired (machinery-level weakness, reported as failure)
 
+    # ---- C20 runs the drivers of other properties under generated configurations: their reports are redirected
+    redirect = None
+    prefix = ''
+
+    @classmethod
+    def get(cls, pid, tier, level='model_checking'):
+        if cls.redirect is not None:
+            cls.redirect._sub = pid
+            return cls.redirect
+        return cls(pid, tier, level)
+
+    def done(self):
+        if Report.redirect is self:
+            return 0
+        return self.finish()
+
     # ---- accumulate
     def add_tlc(self, r, what):
         self.states += r.distinct
@@ -29,10 +45,14 @@ class Report:
     def add_validation(self, v, what, trace=None):
         self.validated += v['lines']
         for t, c in v['cover'].items():
+            if Report.redirect is self and Report.prefix:
+                t = Report.prefix + '/' + t
             self.cover[t] = self.cover.get(t, 0) + c
         self.runs.append(dict(what=what, lines=v['lines'], failed=len(v['fails']), wall_s=round(v['wall'], 1)))
 
     def fail(self, kind, what, record=None, clauses=None, expected=None):
+        if Report.redirect is self and Report.prefix:
+            what = '[%s under configuration %s] %s' % (getattr(self, '_sub', '?'), Report.prefix, what)
         self.items.append(dict(kind=kind, what=what, record=record, clauses=clauses or [], expected=expected))
 
     def sample(self, x):
@@ -40,6 +60,8 @@ class Report:
             self.samples.append(x)
 
     def guard(self, ok, what):
+        if Report.redirect is self:
+            return        # vacuity guards are tuned for the shipped configuration
         if not ok:
             self.guards.append(what)
 
